@@ -11,6 +11,7 @@ Part 3 (kfac): the script emitted by the M-Precond state machine is well-formed 
 Property theorems only; helpers in Lemmas/SchedBase.lean and Lemmas/PrecondInv.lean.
 -/
 import KfacVerif.Lemmas.PrecondInv
+import KfacVerif.Lemmas.Confluence
 
 namespace KV.C03
 open KV KV.Sched2 KV.Precond
@@ -100,5 +101,27 @@ theorem kfac_script_wf_any_history (c : Cfg) (hc : CfgOK c) (h : Hyper) (ops : L
     (hne : (run c (Precond.St.init c h) ops).err = none) :
     wfAuxS c.world [] (run c (Precond.St.init c h) ops).acts = true :=
   script_wf_any c hc h ops hne
+
+/-! ### Part 4: what is computed does not depend on the interleaving (M-SchedVal) -/
+
+/-- the discipline is preserved by every step -/
+theorem disciplined_step {σ β : Type} (S : SchedV.Sys β) {s s' : SchedV.St σ β}
+    (hd : SchedV.Disciplined S s) (h : SchedV.Step S s s') : SchedV.Disciplined S s' := by
+  exact SchedV.disciplined_step' S hd h
+
+/-- **diamond**: two different enabled steps commute -/
+theorem diamond {σ β : Type} (S : SchedV.Sys β) {s a b : SchedV.St σ β} (hd : SchedV.Disciplined S s)
+    (ha : SchedV.Step S s a) (hb : SchedV.Step S s b) :
+    a = b ∨ ∃ c, SchedV.Step S a c ∧ SchedV.Step S b c := by
+  exact SchedV.diamond' S hd ha hb
+
+/-- **every interleaving computes the same thing**: two complete executions from the same
+    disciplined state (whatever the scheduler did) end in the same state — same local states on every
+    rank, same payloads, all programs consumed equally -/
+theorem every_interleaving_same_result {σ β : Type} (S : SchedV.Sys β) {s t u : SchedV.St σ β}
+    (hd : SchedV.Disciplined S s) (n : Nat) (hfin : ∀ r, n ≤ r → s.rem r = [])
+    (ht : SchedV.Reach S s t) (hu : SchedV.Reach S s u)
+    (tt : SchedV.Terminal S t) (tu : SchedV.Terminal S u) : t = u := by
+  exact SchedV.confluent S n _ s rfl hd hfin t u ht hu tt tu
 
 end KV.C03
